@@ -61,3 +61,31 @@ Definition run_show (c : bytes * bytes * N * fields * bytes * bytes * list bytes
 (** issuing a challenge: used by the harness to cross-check getChallenge's opaque *)
 Definition opaque_show (c : bytes * bytes * bytes * N) : string :=
   let '(priv, nonce, ip, t) := c in show_hex (gen_opaque toy_HX b64enc priv nonce ip t).
+
+(** the dict decode() builds, in Python's order: position of a key's first insertion, last value *)
+Fixpoint dict_set (d : fields) (k v : bytes) : fields :=
+  match d with
+  | [] => [(k, v)]
+  | (k', v') :: r => if beq k k' then (k', v) :: r else (k', v') :: dict_set r k v
+  end.
+Definition dict_of (fs : fields) : fields := fold_left (fun d kv => dict_set d (fst kv) (snd kv)) fs [].
+Definition show_fields (fs : fields) : string :=
+  String.concat ";" (map (fun kv => show_hex (fst kv) ++ "=" ++ show_hex (snd kv)) fs).
+
+(** case = (priv, realm, now, raw response bytes, method, host, candidate passwords) *)
+Definition run_raw (c : bytes * bytes * N * bytes * bytes * bytes * list bytes) : string :=
+  let '(priv, realm, now, raw, method, host, pws) := c in
+  match decode_raw toy_HX b64dec priv now raw host with
+  | LoginFailed => "LF"
+  | Creds u fs' =>
+      String.concat "" (map (fun pw => show_bool (check_password toy_HX realm u method fs' pw)) pws)
+      ++ "|" ++ show_fields (dict_of fs')
+  end.
+Definition fields_show (raw : bytes) : string := show_fields (parse_fields raw).
+
+Inductive vcase :=
+| VLogin (c : bytes * bytes * N * bytes * bytes * bytes * list bytes)
+| VChallenge (c : bytes * bytes * bytes * N)
+| VParse (raw : bytes).
+Definition run (c : vcase) : string :=
+  match c with VLogin x => run_raw x | VChallenge y => opaque_show y | VParse r => fields_show r end.
